@@ -696,4 +696,91 @@ theorem clipPolyLoop_complete (c n : V3 K) (l : List (V3 K)) : ∀ (prev : V3 K)
 
 end sh
 
+
+section ss
+variable (sq : K → K)
+set_option linter.style.haveILetI false
+
+/-! ## vocabulary and helpers for `clip_segment_segment` -/
+
+/-- projection of `p` on the direction of `seg1 = (a1, b1)`, unnormalised: `π(p) = (p - a1)·(b1 - a1)`;
+`π(a1) = 0`, `π(b1) = |b1 - a1|²` -/
+def proj1 (a1 b1 p : V2 K) : K := (p.x - a1.x) * (b1.x - a1.x) + (p.y - a1.y) * (b1.y - a1.y)
+
+/-- the point `a + t (b - a)` (2-D) -/
+def segPt2 (a b : V2 K) (t : K) : V2 K := ⟨a.x + (b.x - a.x) * t, a.y + (b.y - a.y) * t⟩
+
+theorem proj1_segPt2 (a1 b1 a b : V2 K) (t : K) :
+    proj1 a1 b1 (segPt2 a b t) = proj1 a1 b1 a + t * (proj1 a1 b1 b - proj1 a1 b1 a) := by
+  simp only [proj1, segPt2]; ring
+
+theorem mem_segPt2 (a b : V2 K) (t : K) (h0 : 0 ≤ t) (h1 : t ≤ 1) :
+    letI := fieldNum K sq
+    (Segment2.mk a b).Mem (segPt2 a b t) := ⟨t, h0, h1, rfl⟩
+
+theorem mem_segPt2_rev (a b : V2 K) (t : K) (h0 : 0 ≤ t) (h1 : t ≤ 1) :
+    letI := fieldNum K sq
+    (Segment2.mk a b).Mem (segPt2 b a t) := by
+  refine ⟨1 - t, by linarith, by linarith, ?_⟩
+  simp only [segPt2, V2.add, V2.sub, V2.smul, V2.mk.injEq]
+  constructor <;> ring
+
+
+/-- lower clipping pair, for `seg2` given by its end points sorted by projection (`r20 < r21`) -/
+theorem ss_ca (a1 b1 s20 s21 : V2 K) (S r20 r21 : K) (hS : proj1 a1 b1 b1 = S) (h20 : proj1 a1 b1 s20 = r20)
+    (h21 : proj1 a1 b1 s21 = r21) (hlt : r20 < r21) (hov1 : r20 ≤ S) (hov2 : 0 ≤ r21) :
+    letI := fieldNum K sq
+    (0 < r20 → (∃ t, 0 ≤ t ∧ t ≤ 1 ∧ a1.add ((b1.sub a1).smul ((r20 - 0) / (S - 0))) = segPt2 a1 b1 t) ∧
+        proj1 a1 b1 (a1.add ((b1.sub a1).smul ((r20 - 0) / (S - 0)))) = r20 ∧ r20 = max 0 r20) ∧
+    (¬ 0 < r20 → (∃ u, 0 ≤ u ∧ u ≤ 1 ∧ s20.add ((s21.sub s20).smul ((0 - r20) / (r21 - r20))) = segPt2 s20 s21 u) ∧
+        proj1 a1 b1 (s20.add ((s21.sub s20).smul ((0 - r20) / (r21 - r20)))) = 0 ∧ (0 : K) = max 0 r20) := by
+  letI : Num K := fieldNum K sq
+  have ea : proj1 a1 b1 a1 = 0 := by simp only [proj1]; ring
+  constructor
+  · intro hpos
+    have hSpos : 0 < S := lt_of_lt_of_le hpos hov1
+    refine ⟨⟨(r20 - 0) / (S - 0), ?_, ?_, rfl⟩, ?_, (max_eq_right hpos.le).symm⟩
+    · apply div_nonneg <;> linarith
+    · rw [div_le_one (by linarith)]; linarith
+    · have : a1.add ((b1.sub a1).smul ((r20 - 0) / (S - 0))) = segPt2 a1 b1 ((r20 - 0) / (S - 0)) := rfl
+      rw [this, proj1_segPt2, ea, hS]; field_simp; ring
+  · intro hneg
+    push Not at hneg
+    have hd : 0 < r21 - r20 := by linarith
+    refine ⟨⟨(0 - r20) / (r21 - r20), ?_, ?_, rfl⟩, ?_, (max_eq_left hneg).symm⟩
+    · apply div_nonneg <;> linarith
+    · rw [div_le_one hd]; linarith
+    · have : s20.add ((s21.sub s20).smul ((0 - r20) / (r21 - r20))) = segPt2 s20 s21 ((0 - r20) / (r21 - r20)) := rfl
+      rw [this, proj1_segPt2, h20, h21]; field_simp; ring
+
+/-- upper clipping pair -/
+theorem ss_cb (a1 b1 s20 s21 : V2 K) (S r20 r21 : K) (hS : proj1 a1 b1 b1 = S) (h20 : proj1 a1 b1 s20 = r20)
+    (h21 : proj1 a1 b1 s21 = r21) (hlt : r20 < r21) (hov1 : r20 ≤ S) (hov2 : 0 ≤ r21) :
+    letI := fieldNum K sq
+    (r21 < S → (∃ t, 0 ≤ t ∧ t ≤ 1 ∧ a1.add ((b1.sub a1).smul ((r21 - 0) / (S - 0))) = segPt2 a1 b1 t) ∧
+        proj1 a1 b1 (a1.add ((b1.sub a1).smul ((r21 - 0) / (S - 0)))) = r21 ∧ r21 = min S r21) ∧
+    (¬ r21 < S → (∃ u, 0 ≤ u ∧ u ≤ 1 ∧ s20.add ((s21.sub s20).smul ((S - r20) / (r21 - r20))) = segPt2 s20 s21 u) ∧
+        proj1 a1 b1 (s20.add ((s21.sub s20).smul ((S - r20) / (r21 - r20)))) = S ∧ S = min S r21) := by
+  letI : Num K := fieldNum K sq
+  have ea : proj1 a1 b1 a1 = 0 := by simp only [proj1]; ring
+  constructor
+  · intro hpos
+    have hSpos : 0 < S := lt_of_le_of_lt hov2 hpos
+    refine ⟨⟨(r21 - 0) / (S - 0), ?_, ?_, rfl⟩, ?_, (min_eq_right hpos.le).symm⟩
+    · apply div_nonneg <;> linarith
+    · rw [div_le_one (by linarith)]; linarith
+    · have : a1.add ((b1.sub a1).smul ((r21 - 0) / (S - 0))) = segPt2 a1 b1 ((r21 - 0) / (S - 0)) := rfl
+      rw [this, proj1_segPt2, ea, hS]; field_simp; ring
+  · intro hneg
+    push Not at hneg
+    have hd : 0 < r21 - r20 := by linarith
+    refine ⟨⟨(S - r20) / (r21 - r20), ?_, ?_, rfl⟩, ?_, (min_eq_left hneg).symm⟩
+    · apply div_nonneg <;> linarith
+    · rw [div_le_one hd]; linarith
+    · have : s20.add ((s21.sub s20).smul ((S - r20) / (r21 - r20))) = segPt2 s20 s21 ((S - r20) / (r21 - r20)) := rfl
+      rw [this, proj1_segPt2, h20, h21]; field_simp; ring
+
+
+end ss
+
 end C17
